@@ -47,6 +47,16 @@ def r1(R):
                     matched = True       # the delegate raises otherwise
                 if calls_method(F, node, hook) and lab != 'e':
                     cleaned = True
+                if lab != 'e':
+                    for op in F.ops(node):
+                        # the wrapper detaches / resets the list itself
+                        if 'finish' in hook and op.kind == 'store' and \
+                                path_is(op.path, ('self', 'dirty_oids')):
+                            cleaned = True
+                        if 'abort' in hook and op.kind == 'call' and \
+                                path_is(op.path,
+                                        ('self', '_blob_remove_files')):
+                            cleaned = True
                 return (matched, cleaned)
 
             def at(node, st, g=g, name=name, hook=hook):
@@ -518,3 +528,61 @@ def r8(R):
     R.require(writes[0] or vs, 'no removal-list writes')
     for v in vs:
         R.violation(v.node, v.message, g, v.path)
+
+
+@rule('C13.R9', 'the blob wrapper touches the shared list of dirty blob '
+      'files only while the transaction still holds the commit lock, i.e. '
+      'not after the wrapped storage\'s tpc_abort / tpc_finish returned',
+      props=['C05'], min_instances=2)
+def r9(R):
+    cls = R.prog.cls(BLOBSTORAGE)
+    for meth in ('tpc_abort', 'tpc_finish'):
+        f = R.method(cls, meth)
+        g, b, F = R.cfg(f, cls, max_depth=3)
+        R.instance('BlobStorage.%s' % meth, cfg_nodes=len(g.reachable()))
+        seen = [0]
+
+        def touches(node):
+            if node.ast is None or node.kind in ('call', 'callret', 'entry',
+                                                 'def'):
+                return False
+            a = node.ast
+            if node.kind in ('acq', 'rel', 'withenter', 'withexit',
+                             'handler', 'loophead', 'for', 'reraise'):
+                return False
+            for x in ast.walk(a):
+                if isinstance(x, ast.Attribute) and x.attr == 'dirty_oids' \
+                        and dotted(x) and F.canon(x, node.frame) == (
+                            'self', 'dirty_oids'):
+                    return True
+            return False
+
+        def edge(node, st, lab, tgt, meth=meth):
+            for op in F.ops(node):
+                if op.kind == 'call' and op.path and len(op.path) == 3 and \
+                        op.path[0] == 'self' and op.path[2] == meth and \
+                        not op.inlined:
+                    seen[0] += 1
+                    return True          # the commit lock has been released
+            return st
+
+        def at(node, st, meth=meth):
+            if st and touches(node):
+                return Violation(
+                    'BlobStorage.%s uses the shared dirty-blob list after '
+                    'the wrapped storage\'s %s returned, i.e. after the '
+                    'commit lock was released: a transaction that was '
+                    'waiting in tpc_begin can have stored a blob meanwhile, '
+                    'and this cleanup then %s' % (
+                        meth, meth,
+                        'removes that transaction\'s blob file (it commits a '
+                        'record without a file)' if meth == 'tpc_abort' else
+                        'forgets that transaction\'s entry (its file stays '
+                        'for ever if it aborts)'))
+            return st
+
+        vs, stats = explore(g, False, at=at, edge=edge)
+        R.count(stats)
+        R.require(seen[0] or vs, 'BlobStorage.%s no longer delegates' % meth)
+        for v in vs:
+            R.violation(v.node, v.message, g, v.path, at_root=True)
